@@ -182,7 +182,13 @@ class FuncVerifier(object):
         for hi_, h in enumerate(hints):
             try:
                 self.apply_one_hint(st, h, hi_, site, extra)
-            except (MissingSnapshot, UnknownName) if h[0] in ('assert_from', 'assert_using') and len(h) > 4 and h[4] == 'optional' else MissingSnapshot:
+            except MissingSnapshot:
+                continue
+            except (UnknownName, IndexError):
+                if h and h[-1] == 'optional':
+                    continue      # optional ghost step that mentions something this path does not have
+                raise
+            if False:
                 continue      # the hint refers to a program point this path did not pass: not applicable here
 
     def has_spec_app(self, e, _seen=None):
@@ -198,6 +204,8 @@ class FuncVerifier(object):
         return r
 
     def apply_one_hint(self, st, h, hi_, site, extra):
+        if h and h[-1] == 'optional' and h[0] not in ('assert_from', 'assert_using'):
+            h = h[:-1]
         for _once in (0,):
             kind = h[0]
             if kind == 'when':
